@@ -1,4 +1,175 @@
-From DV Require Import Base.Prelude Model.SetM.
-Theorem placeholder_c07 : sadd Z.eqb 1 [1] = [1].
+(* C07 - records and record sets have value semantics and exact set algebra.
+   Statements only; the proofs are in Proofs/SetAlg.v, SetRdata.v, SetMachine.v. *)
+From Coq Require Import Permutation.
+From DV Require Import Base.Prelude Model.SetM Proofs.SetAlg Proofs.SetRdata Proofs.SetMachine.
+Open Scope Z_scope.
+
+(* ---------------- records: equality, hash, order ---------------- *)
+
+(* two records are equal iff same class, same type and same canonical encoding (and the same
+   relativity, the rule of Rdata.__eq__) *)
+Theorem rdata_eq_iff_digest : forall a b,
+  rd_eqb a b = true <->
+  rcls a = rcls b /\ rtyp a = rtyp b /\ rrel a = rrel b /\ rdig a = rdig b.
+Proof. exact rd_eqb_iff. Qed.
+Print Assumptions rdata_eq_iff_digest.
+
+Theorem rdata_ne_is_not_eq : forall a b, rd_neb a b = negb (rd_eqb a b).
+Proof. exact rd_neb_negb. Qed.
+Print Assumptions rdata_ne_is_not_eq.
+
+Theorem rdata_hash_congr : forall a b, rd_eqb a b = true -> rd_hashkey a = rd_hashkey b.
+Proof. exact rd_hash_congr. Qed.
+Print Assumptions rdata_hash_congr.
+
+(* _cmp is antisymmetric, transitive, total, its equivalence is ==, and between records of the
+   same relativity it is the canonical RDATA octet order of RFC 4034 6.3 *)
+Theorem rdata_order_total :
+  (forall a b, rd_cmp b a = - rd_cmp a b) /\
+  (forall a b c, rd_cmp a b <= 0 -> rd_cmp b c <= 0 -> rd_cmp a c <= 0) /\
+  (forall a b, rd_cmp a b <= 0 \/ rd_cmp b a <= 0) /\
+  (forall a b, rcls a = rcls b -> rtyp a = rtyp b -> (rd_cmp a b = 0 <-> rd_eqb a b = true)) /\
+  (forall a b, rrel a = rrel b -> (rd_cmp a b < 0 <-> lex_lt (rdig a) (rdig b))).
+Proof. exact rd_order_total_spec. Qed.
+Print Assumptions rdata_order_total.
+
+Theorem rdata_rich_comparisons : forall w a b,
+  rcls a = rcls b -> rtyp a = rtyp b ->
+  rd_rich w a b = Ok (match w with
+                      | RLt => rd_cmp a b <? 0
+                      | RLe => rd_cmp a b <=? 0
+                      | RGe => rd_cmp a b >=? 0
+                      | RGt => rd_cmp a b >? 0
+                      end).
+Proof. exact rd_rich_spec. Qed.
+Print Assumptions rdata_rich_comparisons.
+
+(* ---------------- dns.set.Set: a set that remembers first-insertion order ---------------- *)
+
+(* every public method of Set, in every order and with every aliasing of the registers, keeps
+   every set duplicate-free *)
+Theorem nodup_inv : forall ops st, Forall ND st -> Forall ND (sexec st ops).
+Proof. exact sexec_nodup. Qed.
+Print Assumptions nodup_inv.
+
+(* the algebra for an arbitrary element type whose == is an equivalence relation; `same` is
+   `self is other` and is only ever true when the two arguments are the same object *)
+Theorem set_algebra_generic :
+  forall (A : Type) (eqb : A -> A -> bool),
+    (forall x, eqb x x = true) -> (forall x y, eqb x y = eqb y x) ->
+    (forall x y z, eqb x y = true -> eqb y z = true -> eqb x z = true) ->
+    forall a s o same x,
+      NoDupE A eqb s -> NoDupE A eqb o -> (same = true -> o = s) ->
+      mem eqb x (salg_g A eqb a s o same) = alg_bool a (mem eqb x s) (mem eqb x o).
+Proof. exact salg_mem. Qed.
+Print Assumptions set_algebra_generic.
+
+(* in-place forms, including the aliased calls a.union_update(a) etc. *)
+Theorem union_spec : forall s o same x, ND s -> ND o -> (same = true -> o = s) ->
+  rmem x (sunion_update rd_eqb s o same) = rmem x s || rmem x o.
+Proof. exact union_update_mem. Qed.
+Print Assumptions union_spec.
+
+Theorem inter_spec : forall s o same x, ND s -> ND o -> (same = true -> o = s) ->
+  rmem x (sinter_update rd_eqb s o same) = rmem x s && rmem x o.
+Proof. exact inter_update_mem. Qed.
+Print Assumptions inter_spec.
+
+Theorem diff_spec : forall s o same x, ND s -> ND o -> (same = true -> o = s) ->
+  rmem x (sdiff_update rd_eqb s o same) = rmem x s && negb (rmem x o).
+Proof. exact diff_update_mem. Qed.
+Print Assumptions diff_spec.
+
+Theorem symdiff_spec : forall s o same x, ND s -> ND o -> (same = true -> o = s) ->
+  rmem x (ssym_update rd_eqb s o same) = xorb (rmem x s) (rmem x o).
+Proof. exact sym_update_mem. Qed.
+Print Assumptions symdiff_spec.
+
+(* copying forms; o may be s itself *)
+Theorem union_copy_spec : forall s o x, ND s -> ND o ->
+  rmem x (sunion rd_eqb s o) = rmem x s || rmem x o.
+Proof. exact union_mem. Qed.
+Print Assumptions union_copy_spec.
+
+Theorem inter_copy_spec : forall s o x, ND s -> ND o ->
+  rmem x (sinter rd_eqb s o) = rmem x s && rmem x o.
+Proof. exact inter_mem. Qed.
+Print Assumptions inter_copy_spec.
+
+Theorem diff_copy_spec : forall s o x, ND s -> ND o ->
+  rmem x (sdiff rd_eqb s o) = rmem x s && negb (rmem x o).
+Proof. exact diff_mem. Qed.
+Print Assumptions diff_copy_spec.
+
+Theorem symdiff_copy_spec : forall s o x, ND s -> ND o ->
+  rmem x (ssym rd_eqb s o) = xorb (rmem x s) (rmem x o).
+Proof. exact sym_mem. Qed.
+Print Assumptions symdiff_copy_spec.
+
+(* first-insertion order: the exact member lists (objects, not only equivalence classes) *)
+Theorem order_first_insertion : forall s o, ND s -> ND o ->
+  sunion_update rd_eqb s o false = s ++ filter (fun y => negb (rmem y s)) o /\
+  sinter_update rd_eqb s o false = filter (fun y => rmem y o) s /\
+  sdiff_update rd_eqb s o false = filter (fun y => negb (rmem y o)) s /\
+  ssym_update rd_eqb s o false
+    = filter (fun y => negb (rmem y o)) s ++ filter (fun y => negb (rmem y s)) o.
+Proof. exact order_first_insertion_all. Qed.
+Print Assumptions order_first_insertion.
+
+Theorem aliased_inplace : forall a s,
+  salg a s s true = match a with AUnion | AInter => s | ADiff | ASym => [] end.
+Proof. exact set_alg_aliased. Qed.
+Print Assumptions aliased_inplace.
+
+Theorem subset_spec : forall s o,
+  sissubset rd_eqb s o = true <-> (forall x, rmem x s = true -> rmem x o = true).
+Proof. exact SetMachine.subset_spec. Qed.
+Print Assumptions subset_spec.
+
+Theorem superset_spec : forall s o,
+  sissuperset rd_eqb s o = true <-> (forall x, rmem x o = true -> rmem x s = true).
+Proof. exact SetMachine.superset_spec. Qed.
+Print Assumptions superset_spec.
+
+Theorem disjoint_spec : forall s o,
+  sisdisjoint rd_eqb s o = true <-> (forall x, rmem x s = true -> rmem x o = true -> False).
+Proof. exact SetMachine.disjoint_spec. Qed.
+Print Assumptions disjoint_spec.
+
+(* Set.__eq__ is equality of the member sets, whatever the insertion orders *)
+Theorem eq_ignores_order : forall s o, ND s -> ND o ->
+  (seq rd_eqb s o = true <-> forall x, rmem x s = rmem x o).
+Proof. exact set_eq_ignores_order. Qed.
+Print Assumptions eq_ignores_order.
+
+Theorem eq_permutation : forall s s', ND s -> Permutation s s' -> seq rd_eqb s s' = true.
+Proof. exact set_eq_perm. Qed.
+Print Assumptions eq_permutation.
+
+(* ---------------- non-vacuity ---------------- *)
+
+(* two NS records that differ in the case of the target: distinct objects, equal, same hash *)
+Definition ex_a := mkRd 0 1 2 0 [1; 97; 0] false.
+Definition ex_A := mkRd 1 1 2 0 [1; 97; 0] false.
+Definition ex_b := mkRd 2 1 2 0 [1; 98; 0] false.
+Definition ex_rel := mkRd 3 1 2 0 [1; 97; 0] true.
+
+Example ex_equal_distinct : rd_eqb ex_a ex_A = true /\ ex_a <> ex_A /\ rd_eqb ex_a ex_rel = false.
+Proof. repeat split; discriminate. Qed.
+
+Example ex_nd : ND [ex_a; ex_b] /\ ND [ex_b; ex_rel].
+Proof. split; repeat constructor. Qed.
+
+Example ex_union_keeps_first :
+  sunion rd_eqb [ex_a; ex_b] [ex_rel; ex_A] = [ex_a; ex_b; ex_rel] /\
+  ssym rd_eqb [ex_a; ex_b] [ex_rel; ex_A] = [ex_b; ex_rel] /\
+  seq rd_eqb [ex_a; ex_b] [ex_b; ex_A] = true.
+Proof. repeat split. Qed.
+
+Example ex_machine :
+  sexec [] [SNew 0 [ex_a; ex_A; ex_b]; SNew 1 [ex_b]; SInpl IDiff 0 (Some 1%nat); SInpl ISym 1 (Some 1%nat)]
+  = [[ex_a]; []].
 Proof. reflexivity. Qed.
-Print Assumptions placeholder_c07.
+
+Example ex_order : rd_cmp ex_rel ex_a = -1 /\ rd_cmp ex_a ex_b = -1 /\ lex_lt [1; 97; 0] [1; 98; 0].
+Proof. repeat split. apply lex_tail, lex_head. lia. Qed.
